@@ -871,7 +871,25 @@ pub fn snap_hash(s: &Snap, root: &Path) -> u64 {
         h = splitmix64(h ^ crate::rng::hash_bytes(k));
         h = splitmix64(h ^ hash_str(&scrub(&v.describe(), root)));
         if let crate::snap::Node::File { data, .. } = v {
-            h = splitmix64(h ^ crate::rng::hash_bytes(data));
+            // contents may name the world's own location (an env value holding a layer path):
+            // the event log must not depend on where the world lives
+            let rootb = root.as_os_str().as_bytes();
+            if !rootb.is_empty() && data.windows(rootb.len()).any(|w| w == rootb) {
+                let mut scrubbed = Vec::with_capacity(data.len());
+                let mut i = 0;
+                while i < data.len() {
+                    if data[i..].starts_with(rootb) {
+                        scrubbed.extend_from_slice(b"$ROOT");
+                        i += rootb.len();
+                    } else {
+                        scrubbed.push(data[i]);
+                        i += 1;
+                    }
+                }
+                h = splitmix64(h ^ crate::rng::hash_bytes(&scrubbed));
+            } else {
+                h = splitmix64(h ^ crate::rng::hash_bytes(data));
+            }
         }
     }
     h
